@@ -159,7 +159,7 @@ type unsignedDoc struct {
 }
 
 // object builds one unsigned JSON object. flavour: "" = well-formed schema-like object.
-func (g *gen) object(signerRef string, flavour string) unsignedDoc {
+func (g *gen) object(signerRef string, flavour string, maxExtra int) unsignedDoc {
 	rnd := g.r.R
 	type member struct {
 		text  string
@@ -184,7 +184,7 @@ func (g *gen) object(signerRef string, flavour string) unsignedDoc {
 		ms = append(ms, mk(`"camliSigner"`, signerVal))
 	}
 	ud := unsignedDoc{signer: signerRef, flavour: flavour}
-	n := rnd.Intn(6)
+	n := rnd.Intn(maxExtra + 1)
 	for i := 0; i < n; i++ {
 		switch {
 		case rnd.Chance(18):
@@ -694,9 +694,9 @@ func Run(r *hk.Run) {
 	r.Hit("json:depth-limit-probed")
 
 	// (2) generated objects: sign, verify, mutate
-	nDocs, nFullSweep, nSetSweep, nRand := 30, 0, 3, 150
+	nDocs, nFullSweep, nSetSweep, nRand := 40, 1, 4, 150
 	if th {
-		nDocs, nFullSweep, nSetSweep, nRand = 200, 2, 16, 600
+		nDocs, nFullSweep, nSetSweep, nRand = 240, 3, 24, 600
 	}
 	flavours := []string{"", "", "", "", "", "", "dup-signer", "signer-escaped", "no-version", "no-signer", "signer-number", "signer-null"}
 	var good []*signedDoc
@@ -718,11 +718,15 @@ func Run(r *hk.Run) {
 		case i >= 6 && rnd.Chance(3):
 			ref = rnd.Pick([]string{"", "sha224-xyz", "sha224", "SHA224-" + strings.Repeat("ab", 28), "foo-bar", "sha1-" + strings.Repeat("0", 39)})
 		}
-		ud := g.object(ref, fl)
+		maxExtra := 5
+		if i == 0 {
+			maxExtra = 1 // the fully swept document is kept small
+		}
+		ud := g.object(ref, fl, maxExtra)
 		if i == 1 || i == 4 {
 			// make sure look-alikes are among the swept documents
 			for !ud.lookalike {
-				ud = g.object(ref, fl)
+				ud = g.object(ref, fl, maxExtra)
 			}
 		}
 		kinds := g.stdKeys()
